@@ -2,10 +2,14 @@
 Require Extraction.
 Require ExtrOcamlBasic.
 From Coq Require Import ZArith NArith.
-From GV Require Import StrLib.Str StrLib.StrSpec.
+From GV Require Import StrLib.Str StrLib.StrSpec StrLib.Tab StrLib.TabSpec.
 Extraction Language OCaml.
 Extraction "model.ml" Z.add N.add Nat.add Pos.add Z.ltb Z.pow
   Str.sub_im Str.byte_im Str.char_im Str.len_im Str.reverse_im Str.rep_im
   Str.find_plain_im Str.upper_im Str.lower_im Str.latin1_upper Str.latin1_lower
   StrSpec.sub_spec StrSpec.byte_spec StrSpec.char_spec StrSpec.len_spec StrSpec.reverse_spec
-  StrSpec.rep_spec_opt StrSpec.upper_spec StrSpec.lower_spec StrSpec.find_spec.
+  StrSpec.rep_spec_opt StrSpec.upper_spec StrSpec.lower_spec StrSpec.find_spec
+  Z.leb Z.sub
+  Tab.insert_im Tab.remove_im Tab.move_im Tab.unpack_im Tab.concat_im Tab.pack_im Tab.run Tab.run_log Tab.mkstate
+  TabSpec.insert_pos_ok TabSpec.insert_spec TabSpec.remove_pos_ok TabSpec.remove_spec TabSpec.move_ok TabSpec.move_spec
+  TabSpec.unpack_spec TabSpec.concat_spec TabSpec.pack_spec.
